@@ -134,6 +134,8 @@ int main(int argc, char** argv) {
   add(def, P["abort-many"], true, {1, 1, 1}, 3, -1, 1, 2);
   add(def, P["big-push"], true, {2}, 2, 0, 1, 4);
   add(def, P["big-push"], true, {1, 1}, 2, -1, 1, 4);
+  add(def, P["late-push"], false, {1, 1}, 2, 1, 2, 3);
+  add(def, P["late-push"], false, {2}, 2, 1, 2, 3);
   add(def, P["vabort"], true, {2}, 2, 1, 2, 4);
   add(def, P["vabort"], true, {1, 1}, 2, 1, 2, 4);
   add(def, P["vabort"], true, {1, 1, 1}, 3, -1, 1, 2);
@@ -151,6 +153,8 @@ int main(int argc, char** argv) {
     add(wls[i], P["vabort"], true, {1, 1}, 2, -1, 2, 3);
     add(wls[i], P["abort-many"], true, {2}, 2, i % 4 == 1 ? 1 : -1, 1, 2);
     add(wls[i], P["chain"], true, {2}, 2, -1, 1, 2);
+    add(wls[i], P["late-push"], false, {1, 1}, 2, 1, 2, 3);
+    add(wls[i], P["late-push"], false, {2}, 2, -1, 2, 3);
   }
   // generated operator programs (see fe_generated_programs): the whole family
   // on the default worklist in the thorough tier, every 9th in the quick tier
